@@ -77,6 +77,7 @@ func (idx *BigIndexWriter) AddRow(values map[string]string) (uint32, error) {
 		if err != nil {
 			return 0, fmt.Errorf("failed to commit: %w", err)
 		}
+		verifPoint("big-temp-batch", idx.db)
 
 		idx.tempTx, err = idx.tempDB.Begin(true)
 		if err != nil {
@@ -91,6 +92,7 @@ func (idx *BigIndexWriter) Flush() error {
 	if err := idx.tempTx.Commit(); err != nil {
 		return fmt.Errorf("failed to commit: %w", err)
 	}
+	verifPoint("big-temp-final", idx.db)
 
 	tempTx, err := idx.tempDB.Begin(false)
 	if err != nil {
@@ -198,6 +200,7 @@ func (idx *BigIndexWriter) Flush() error {
 	if err := tx.Commit(); err != nil {
 		return fmt.Errorf("failed to commit changes: %w", err)
 	}
+	verifPoint("big-final", idx.db)
 
 	return nil
 }
